@@ -54,7 +54,9 @@ pub fn run(prop: &str, a: &Args, rep: &mut Report) {
     let mut rng = Rng::derive(a.seed, a.shard, 1);
     let mut batch: Vec<Pre> = Vec::new();
     // rotate the starting index per shard so that shards cover different (opcode, pair) cells
-    let base = a.shard * 7919 + a.seed.wrapping_mul(104729) % 1000;
+    // the union over shards is a consecutive index range, so that every (opcode, dst, src) cell
+    // (121 x 110 cells) is visited range/13310 times; the seed only moves the starting point
+    let base = a.seed.wrapping_mul(104729) % 13310;
     for k in 0..mix.micro {
         let idx = base + k * a.nshards + a.shard;
         let (c, info) = gen_micro(&mut rng, idx);
